@@ -237,7 +237,48 @@ class _FakeLib:
         self.blocks = blocks
 
 
-SUBS = {"roundtrip": o_roundtrip, "scope": o_scope}
+# values on which the third-party decoder itself gives up (a macro without its arguments): a conversion failure of the
+# shipped default decoder, not of a custom one
+NATURAL_FAILURES = ["\\href{u}{t}", "x \\input", "see \\verb", "a \\footnote", "\\sqrt", "\\textcolor{red}", "ok \\href{http://a.b}", "\\frac{1}", "\\begin{x}", "plain"]
+
+
+def o_natural(inp):
+    """inp: {"value": v, "where": "field"|"nameparts", "opts": {decoder options}, "inplace": bool}: whatever the decoder
+    makes of the value, the middleware returns - an Entry with string values, or an error block holding the original entry."""
+    from bibtexparser.middlewares import LatexDecodingMiddleware
+
+    v = inp["value"]
+    val = v if inp["where"] == "field" else NameParts(first=["A"], von=[], last=[v], jr=[])
+    fine = Entry("book", "fine", [libgen.Field("title", "Caf\\'e", 5)], 4, "@book{fine}")
+    lib = Library([Entry("article", "k", [libgen.Field("note", "n\\'e", 1), libgen.Field("author" if inp["where"] != "field" else "title", val, 2)], 0, "@article{k}"), fine])
+    mw = libgen.construct(LatexDecodingMiddleware, dict(inp["opts"], allow_inplace_modification=inp["inplace"]), (v, inp["where"]))
+    out = mw.transform(lib)  # an exception here is the violation (turned into a failure by the harness)
+    cls = ["natural-decoder-input"]
+    if len(out.blocks) != 2:
+        return (("natural:block-count", f"{len(out.blocks)} blocks", "2 blocks"), True, cls)
+    b, other = out.blocks
+    if not isinstance(other, Entry) or other.fields[0].value != "Café":
+        return (("natural:neighbour", repr(other), "the other entry decoded as usual"), True, cls)
+    if isinstance(b, MiddlewareErrorBlock):
+        cls.append("natural-failure-contained")
+        inner = b.ignore_error_block
+        if not isinstance(inner, Entry) or inner.key != "k" or [f.key for f in inner.fields] != ["note", "author" if inp["where"] != "field" else "title"]:
+            return (("natural:inner-entry", repr(inner), "the original entry"), True, cls)
+        got = inner.fields[1].value
+        if (inp["where"] == "field" and got != v) or (inp["where"] != "field" and (not isinstance(got, NameParts) or got.last != [v])):
+            return (("natural:failing-value-altered", repr(got), repr(val)), True, cls)
+        return (None, True, cls)
+    if not isinstance(b, Entry) or [f.key for f in b.fields] != ["note", "author" if inp["where"] != "field" else "title"]:
+        return (("natural:entry-shape", repr(b), "Entry with the same fields or an error block"), True, cls)
+    got = b.fields[1].value
+    if inp["where"] == "field" and not isinstance(got, str):
+        return (("natural:type", repr(got), "str"), True, cls)
+    if inp["where"] != "field" and (not isinstance(got, NameParts) or not all(isinstance(x, str) for x in got.last)):
+        return (("natural:type", repr(got), "NameParts of str"), True, cls)
+    return (None, v != "plain", cls)
+
+
+SUBS = {"roundtrip": o_roundtrip, "scope": o_scope, "natural": o_natural}
 
 
 def w_pairs(acc, lo, hi):
@@ -268,6 +309,11 @@ def w_atoms(acc):
         acc.run("roundtrip", o_roundtrip, {"text": t, "where": "field", "opts": opts, "key": key}, True)
     for atom, p, opts in itertools.product(RISKY_URLS + ["$x$ 5% $y$", "$a$ and $b$ \\& c", "$a$ $b$ $c$"], pre, OPTION_SETS):
         acc.run("roundtrip", o_roundtrip, {"text": p + atom + " end", "where": "field", "opts": opts}, True)
+
+
+def w_natural(acc):
+    for v, where, opts, inplace in itertools.product(NATURAL_FAILURES, ("field", "nameparts"), ({}, {"keep_braced_groups": True}, {"keep_math_mode": False}, {"keep_braced_groups": False, "keep_math_mode": True}), (True, False)):
+        acc.run("natural", o_natural, {"value": v, "where": where, "opts": opts, "inplace": inplace}, True)
 
 
 def _scope_specs():
@@ -359,7 +405,7 @@ def w_scope_grid(acc):
 
 def run(chk):
     quick = chk.tier == "quick"
-    tasks = [("w_atoms", ()), ("w_scope_grid", ())]
+    tasks = [("w_atoms", ()), ("w_scope_grid", ()), ("w_natural", ())]
     for lo, hi in harness.chunks(len(CHARS), 30):
         tasks.append(("w_pairs", (lo, hi)))
     n_rand = 8000 if quick else 300000
@@ -379,7 +425,7 @@ def run(chk):
         "MiddlewareErrorBlock holding the original entry (failing value unaltered) and never an exception. Non-trivial: text with a "
         "non-ASCII letter, TeX special, URL or math atom; every scope case."
     )
-    chk.required_classes = ["non-ascii", "tex-special", "url", "math", "where:string", "where:nameparts", "opts:no-math", "opts:no-urls", "custom-converter", "error-contained"]
+    chk.required_classes = ["non-ascii", "tex-special", "url", "math", "where:string", "where:nameparts", "opts:no-math", "opts:no-urls", "custom-converter", "error-contained", "natural-failure-contained"]
     chk.assumptions = [
         "the round-trip alphabet excludes what the property's quantifier excludes ('^', '\"', the five TeX ligature sequences) and the 10 Latin letters pylatexenc 2.11 maps non-injectively",
         "how a failing @string conversion is contained is not specified by the statement: only 'no exception' is asserted for it",
